@@ -155,28 +155,50 @@ impl<'a> Printer<'a> {
         }
     }
 
+    /// blank space inside braces: like `blanks`, and now and then the step is wrapped there (a line break,
+    /// possibly after a line comment), which reads as a blank
+    fn brace_blanks(&mut self) -> String {
+        if !self.plain && self.tape.chance(1, 14) {
+            self.f.soft_wraps += 1;
+            return ["\n", " \n ", " -- c\n", "\n\t"][self.tape.pick(4) as usize].to_string();
+        }
+        self.blanks()
+    }
+
     fn qty(&mut self, q: &QtyM) -> String {
         let mut s = String::new();
-        s.push_str(&self.blanks());
+        // (never a line break before `=`: a line starting with `=` is a section header)
+        s.push_str(&if q.lock { self.blanks() } else { self.brace_blanks() });
         if q.lock {
             s.push('=');
-            s.push_str(&self.blanks());
+            s.push_str(&self.brace_blanks());
         }
         s.push_str(&self.value(&q.value));
         if let Some(u) = &q.unit {
             if q.blank_sep {
-                s.push(' ');
+                // a blank or a line break separates value and unit
+                if !self.plain && self.tape.chance(1, 10) {
+                    self.f.soft_wraps += 1;
+                    s.push('\n');
+                } else {
+                    s.push(' ');
+                }
                 s.push_str(&self.blanks());
+                // comments next to the separating blank vanish
+                if !self.plain && self.tape.chance(1, 10) {
+                    self.f.comments += 1;
+                    s.push_str(["[- c -]", "[- c -] ", "[-é-]"][self.tape.pick(3) as usize]);
+                }
                 // the unit text of the blank form runs to the closing brace
                 s.push_str(&self.words(u));
             } else {
-                s.push_str(&self.blanks());
+                s.push_str(&self.brace_blanks());
                 s.push('%');
-                s.push_str(&self.blanks());
+                s.push_str(&self.brace_blanks());
                 s.push_str(&self.words(u));
             }
         }
-        s.push_str(&self.blanks());
+        s.push_str(&self.brace_blanks());
         s
     }
 
@@ -249,7 +271,7 @@ impl<'a> Printer<'a> {
                     self.f.comments += 1;
                     s.push_str(["[- to taste -]", " [- 1%tsp -] ", " [-é-]"][self.tape.pick(3) as usize]);
                 }
-                None => s.push_str(&self.blanks()),
+                None => s.push_str(&self.brace_blanks()),
             }
             s.push('}');
         }
